@@ -1596,17 +1596,39 @@ class _Signature:
     def sym_getattr(self, name, interp):
         a = self.fv.node.args
         if name == 'parameters':
-            names = [p.arg for p in a.posonlyargs + a.args][self.skip:]
-            names += [p.arg for p in a.kwonlyargs]
+            out = {}
+            pos = a.posonlyargs + a.args
+            for p in pos[self.skip:]:
+                out[p.arg] = ParamV(p.arg, 'POSITIONAL_OR_KEYWORD')
             if a.vararg:
-                names.append(a.vararg.arg)
+                out[a.vararg.arg] = ParamV(a.vararg.arg, 'VAR_POSITIONAL')
+            for p in a.kwonlyargs:
+                out[p.arg] = ParamV(p.arg, 'KEYWORD_ONLY')
             if a.kwarg:
-                names.append(a.kwarg.arg)
-            return {n: Opaque('Parameter') for n in names}
+                out[a.kwarg.arg] = ParamV(a.kwarg.arg, 'VAR_KEYWORD')
+            return out
         if name == 'args':
             return [p.arg for p in a.posonlyargs + a.args]
         if name == 'varkw':
             return a.kwarg.arg if a.kwarg else None
+        raise_('AttributeError', name)
+
+
+class ParamV:
+    KINDS = ('POSITIONAL_ONLY', 'POSITIONAL_OR_KEYWORD', 'VAR_POSITIONAL',
+             'KEYWORD_ONLY', 'VAR_KEYWORD')
+
+    def __init__(self, name, kind):
+        self.name = name
+        self.kind = kind
+
+    def sym_getattr(self, name, interp):
+        if name == 'kind':
+            return self.kind
+        if name == 'name':
+            return self.name
+        if name in self.KINDS:
+            return name
         raise_('AttributeError', name)
 
 
